@@ -1,5 +1,6 @@
 SPECIFICATION Spec
 CONSTANTS
+  CopyOnEntry = TRUE
   Depth = 3
   Emit = TRUE
 INVARIANT CopyingOpsFrame
